@@ -370,7 +370,8 @@ pub fn triage(property: &str, batch: &BatchOut, classes: &[ClassSpec], env: &Env
         let plan = s.plan.clone().expect("violating run keeps its plan");
         let want = (v.property.clone(), vkey(&v));
         let mut fails = |p: &Plan| -> bool {
-            let rec = execute(sc, p, env);
+            // a shrunken plan may be one no generator would produce: a harness panic on it just means "not this one"
+            let Ok(rec) = std::panic::catch_unwind(std::panic::AssertUnwindSafe(|| execute(sc, p, env))) else { return false };
             rec.violations.iter().any(|x| x.property == want.0 && vkey(x) == want.1 && known_match(known, x).is_none())
         };
         let (min, tries) = minimise(&plan, &mut fails, &sc.cfg_floor(), 300);
